@@ -718,8 +718,188 @@ def _distinct(nodes):
     return list(out.values())
 
 
-def check_spectrum(ck, prefix):
-    """eigenspectrum / eq_probs: ordering, column permutation, normalisation.
+# ---------------------------------------------------------------------------
+# Propositional + linear reasoning over the conditions of one symbolic path
+# (finite abstract domain: truth assignments of the atomic conditions).
+
+def _matrix_dim(e, T):
+    """`e` is the number of states of the (square) matrix parameter T:
+    <T up to transposition / container conversion>.shape[0|1] or len(...)."""
+    if isinstance(e, ast.Subscript) and isinstance(e.value, ast.Attribute) and e.value.attr == 'shape' and \
+            const_value(e.slice) in (0, 1, -1, -2):
+        m = e.value.value
+    elif isinstance(e, ast.Call) and call_name(e) == 'len' and len(e.args) == 1:
+        m = e.args[0]
+    else:
+        return False
+    while True:
+        m2 = strip_conversions(m)
+        if isinstance(m2, ast.Attribute) and m2.attr == 'T':
+            m2 = m2.value
+        if m2 is m:
+            break
+        m = m2
+    return isinstance(m, ast.Name) and m.id == T
+
+
+def linear(e, T):
+    """{symbol: integer coefficient} (+ key 1 for the constant) of an integer
+    expression that is linear in names and in the matrix dimension 'N'; None
+    if it is anything else."""
+    if isinstance(e, ast.Constant) and isinstance(e.value, int) and not isinstance(e.value, bool):
+        return {1: e.value}
+    if _matrix_dim(e, T):
+        return {'N': 1}
+    if isinstance(e, ast.Name):
+        return {e.id: 1}
+    if isinstance(e, ast.UnaryOp) and isinstance(e.op, (ast.USub, ast.UAdd)):
+        a = linear(e.operand, T)
+        if a is None:
+            return None
+        return {k: -v for k, v in a.items()} if isinstance(e.op, ast.USub) else a
+    if isinstance(e, ast.BinOp) and isinstance(e.op, (ast.Add, ast.Sub)):
+        a, b = linear(e.left, T), linear(e.right, T)
+        if a is None or b is None:
+            return None
+        out = dict(a)
+        for k, v in b.items():
+            out[k] = out.get(k, 0) + (v if isinstance(e.op, ast.Add) else -v)
+        return {k: v for k, v in out.items() if v != 0 or k == 1}
+    return None
+
+
+def _lin_sub(a, b):
+    out = dict(a)
+    for k, v in b.items():
+        out[k] = out.get(k, 0) - v
+    return {k: v for k, v in out.items() if v != 0}
+
+
+def _never_sparse(e):
+    """issparse(e) is False by construction: e is the result of a densifying conversion."""
+    return isinstance(e, ast.Call) and ((isinstance(e.func, ast.Attribute) and e.func.attr in ('toarray', 'todense')) or
+                                        call_name(e) in ('np.asarray', 'np.array', 'np.zeros', 'np.ones', 'np.empty'))
+
+
+class PathLogic:
+    """The conditions of a SymPath as boolean formulas over atoms.  An ordering
+    comparison that is linear (see `linear`) is the atom `g <= 0` for an integer
+    linear form g; everything else is an opaque atom named by its text."""
+
+    def __init__(self, path, T):
+        self.T = T
+        self.atoms = []         # opaque keys and ('lin', frozenset(g.items()))
+        self.formulas = [(node, pol) for k, (pol, node) in path.conds.items() if k[0] != 'raises']
+        for node, _ in self.formulas:
+            self._collect(node)
+
+    def _leaf(self, n):
+        """('const', bool) / ('atom', key, negate)."""
+        if isinstance(n, ast.Compare) and len(n.ops) == 1 and isinstance(n.ops[0], (ast.Lt, ast.LtE, ast.Gt, ast.GtE)):
+            a, b = linear(n.left, self.T), linear(n.comparators[0], self.T)
+            if a is not None and b is not None:
+                op = n.ops[0]
+                if isinstance(op, (ast.Gt, ast.GtE)):
+                    a, b = b, a
+                g = _lin_sub(a, b)                  # a < b  <=>  a - b + 1 <= 0 ;  a <= b  <=>  a - b <= 0
+                if isinstance(op, (ast.Lt, ast.Gt)):
+                    g[1] = g.get(1, 0) + 1
+                g = {k: v for k, v in g.items() if v != 0}
+                if set(g) <= {1}:
+                    return ('const', g.get(1, 0) <= 0)
+                return ('atom', ('lin', frozenset(g.items())), False)
+        if isinstance(n, ast.Call) and (call_name(n) or '').split('.')[-1] in ('issparse', 'isspmatrix') and len(n.args) == 1:
+            if _never_sparse(n.args[0]):
+                return ('const', False)
+            return ('atom', 'issparse(%s)' % u(n.args[0]), False)
+        if isinstance(n, ast.Constant):
+            return ('const', bool(n.value))
+        return ('atom', u(n), False)
+
+    def _collect(self, n):
+        if isinstance(n, ast.BoolOp):
+            for v in n.values:
+                self._collect(v)
+        elif isinstance(n, ast.UnaryOp) and isinstance(n.op, ast.Not):
+            self._collect(n.operand)
+        else:
+            lf = self._leaf(n)
+            if lf[0] == 'atom' and lf[1] not in self.atoms:
+                self.atoms.append(lf[1])
+
+    def _eval(self, n, env):
+        if isinstance(n, ast.BoolOp):
+            vs = [self._eval(v, env) for v in n.values]
+            return all(vs) if isinstance(n.op, ast.And) else any(vs)
+        if isinstance(n, ast.UnaryOp) and isinstance(n.op, ast.Not):
+            return not self._eval(n.operand, env)
+        lf = self._leaf(n)
+        return lf[1] if lf[0] == 'const' else env[lf[1]]
+
+    def models(self, limit=12):
+        """Truth assignments of the atoms under which every condition of the
+        path has its recorded polarity (None: too many atoms)."""
+        import itertools
+        if len(self.atoms) > limit:
+            return None
+        out = []
+        for vals in itertools.product((True, False), repeat=len(self.atoms)):
+            env = dict(zip(self.atoms, vals))
+            if all(self._eval(node, env) == pol for node, pol in self.formulas):
+                out.append(env)
+        return out
+
+    @staticmethod
+    def entails(env, goal):
+        """Some single linear atom of the assignment implies `goal <= 0`
+        (goal: linear form).  g <= 0 implies goal <= 0 when goal - g is a
+        constant <= 0; not (g <= 0), i.e. 1 - g <= 0, likewise."""
+        for k, truth in env.items():
+            if not (isinstance(k, tuple) and k[0] == 'lin'):
+                continue
+            g = dict(k[1])
+            if not truth:
+                g = {kk: -v for kk, v in g.items()}
+                g[1] = g.get(1, 0) + 1
+            d = _lin_sub(goal, g)
+            if set(d) <= {1} and d.get(1, 0) <= 0:
+                return True
+        return False
+
+
+def _arpack_k(o, rule, p, E, k, T):
+    construct = 'number of eigenpairs requested from the sparse solver vs. matrix size'
+    kl = linear(k, T)
+    if kl is None:
+        o.missing(rule, 'k handed to eigs is not a linear integer expression: %s' % u(k)[:80])
+        return
+    goal = _lin_sub(kl, {'N': 1, 1: -2})         # k - N + 2 <= 0
+    logic = PathLogic(p, T)
+    ms = logic.models()
+    if ms is None:
+        o.missing(rule, 'too many atomic conditions on the path into eigs (%d)' % len(logic.atoms))
+        return
+    if not ms:
+        return                                      # infeasible path (e.g. N - 1 <= N assumed false)
+    conds = ' and '.join(('' if pol else 'not ') + '(%s)' % u(node)[:70] for node, pol in logic.formulas)
+    if set(goal) <= {1}:
+        ok = goal.get(1, 0) <= 0
+        o.check(ok, rule, E, 'k = %s is below N - 1 by construction' % u(k),
+                'on the path [%s] the sparse solver is asked for k = %s eigenpairs of an N x N matrix: ARPACK only '
+                'delivers k < N - 1 (scipy.sparse.linalg.eigs raises TypeError "Cannot use scipy.linalg.eig for sparse A '
+                'with k >= N - 1"), so the default n_eigs=None ("all are computed") fails for every sparse matrix that is '
+                'not densified first; use the dense solver when k >= N - 1' % (conds[:300], u(k)), construct=construct)
+        return
+    bad = [m for m in ms if not PathLogic.entails(m, goal)]
+    o.check(not bad, rule, E, 'every path into eigs implies k < N - 1',
+            'on the path [%s] nothing bounds k = %s below N - 1 (N = number of states): ARPACK only delivers k < N - 1 '
+            'eigenpairs and scipy.sparse.linalg.eigs raises TypeError for k >= N - 1 on a sparse matrix; a request for '
+            '(nearly) all eigenpairs must take the dense solver' % (conds[:300], u(k)), construct=construct)
+
+
+def check_spectrum(ck, prefix, arpack_k=False):
+    """eigenspectrum / eq_probs: ordering, column permutation, normalisation
+    (arpack_k: also the k < N - 1 bound of the sparse solver, see _arpack_k).
 
     Decided on the symbolic value of every return path of eigenspectrum (see
     SymExec): with E the eigensolver call of the path, the function must return
@@ -784,6 +964,11 @@ def check_spectrum(ck, prefix):
             k = E.args[1] if len(E.args) > 1 else kwarg(E, 'k')
             o.check(k is not None and u(k) == u(N), rule + '.which', E, 'k = n_eigs', 'eigs must be asked for n_eigs eigenvalues',
                     construct='eigs(k=%s) with n_eigs=%s' % (u(k) if k is not None else 'default', u(N)))
+            # --- added after the bug hunt (eigenspectrum-sparse-all-eigs): ARPACK delivers only
+            # k < N - 1 eigenpairs (scipy raises TypeError for k >= N - 1 on a sparse operator), so
+            # the conditions of every path into the sparse solver must bound k by N - 2
+            if k is not None and arpack_k:
+                _arpack_k(o, rule + '.arpack-k', p, E, k, T)
         else:
             n_dense += 1
             plain = len(E.args) + len(E.keywords) == 1
@@ -871,3 +1056,75 @@ def check_spectrum(ck, prefix):
                  'eq_probs must return column 0 of the eigenvector matrix', construct='return %s' % u(a)[:120])
     if paths is not None:
         ck.floor(rule + '.eq-probs', n, 1, 'return path of eq_probs')
+
+
+# ---------------------------------------------------------------------------
+# C19 (added after the bug hunt, eigs-random-start): iterative solvers that
+# draw their start vector at random unless the caller supplies one.
+
+# callee (last component) -> (position of v0, keyword)
+_RANDOM_START = {'eigs': (5, 'v0'), 'eigsh': (5, 'v0'), 'svds': (5, 'v0')}
+_UNSEEDED_RNG = ('rand', 'randn', 'random', 'random_sample', 'uniform', 'normal', 'standard_normal', 'randint',
+                 'choice', 'permutation', 'shuffle', 'sample', 'ranf')
+_RNG_FACTORIES = ('RandomState', 'default_rng', 'Generator', 'SeedSequence', 'PCG64', 'MT19937')
+
+
+def _nondeterministic_source(e):
+    """A call in `e` that reads the global numpy / stdlib RNG or builds a
+    generator without a seed (entropy from the OS)."""
+    for n in ast.walk(e):
+        if not isinstance(n, ast.Call):
+            continue
+        cn = call_name(n) or ''
+        parts = cn.split('.')
+        if len(parts) >= 2 and parts[-2] == 'random' and parts[-1] in _UNSEEDED_RNG:
+            return n                    # np.random.rand(...), random.random()
+        if parts[-1] in _RNG_FACTORIES and (not (n.args or n.keywords) or
+                                           (n.args and isinstance(n.args[0], ast.Constant) and n.args[0].value is None)):
+            return n                    # np.random.RandomState() / default_rng(None)
+    return None
+
+
+def check_random_start(ck, rule, mods):
+    """Every call of scipy.sparse.linalg.eigs / eigsh / svds in `mods` passes a
+    start vector v0 that is a deterministic function of the arguments.  Without
+    v0 ARPACK starts from a random residual (scipy >= 1.15: a fresh
+    np.random.default_rng(None), i.e. OS entropy; older scipy: ARPACK's own
+    generator whose state survives between calls), so the returned Ritz vectors
+    (their signs) and the last bits of the Ritz values differ between identical
+    calls - the routine is not a function of its arguments.  Returns the number
+    of solver calls examined."""
+    from ..patterns import finfo
+    n = 0
+    for mod in mods:
+        if mod.kind != 'py':
+            continue
+        for q, fn in mod.functions.items():
+            calls = [c for c in walk_local(fn) if isinstance(c, ast.Call) and
+                     (call_name(c) or '').split('.')[-1] in _RANDOM_START and
+                     ('linalg' in (call_name(c) or '') or '.' not in (call_name(c) or ''))]
+            if not calls:
+                continue
+            fi = finfo(mod, fn)
+            for c in calls:
+                last = (call_name(c) or '').split('.')[-1]
+                pos, kw = _RANDOM_START[last]
+                if any(isinstance(a, ast.Starred) for a in c.args) or any(k.arg is None for k in c.keywords):
+                    ck.missing(rule, 'arguments of %s in %s::%s are passed by unpacking' % (call_name(c), mod.rel, q))
+                    continue
+                n += 1
+                v0 = c.args[pos] if len(c.args) > pos else kwarg(c, kw)
+                construct = 'start vector of the iterative eigensolver %s' % last
+                if v0 is None or (isinstance(v0, ast.Constant) and v0.value is None):
+                    ck.bad(rule, mod, c, q, construct,
+                           '%s is called without v0: ARPACK then starts from a RANDOM residual vector (drawn from OS entropy '
+                           'or from generator state left by earlier calls), so two identical calls of %s return eigenvectors '
+                           'of different sign and eigenvalues / stationary vectors that differ in the last bits; the caller '
+                           'has no seed to control it. Pass a start vector computed from the arguments alone, e.g. '
+                           'v0=np.random.RandomState(0).uniform(-1, 1, n)' % (call_name(c), q))
+                    continue
+                src = _nondeterministic_source(fi.expand(v0))
+                ck.check(src is None, rule, mod, c, q, construct,
+                         'v0=%s: the start vector is computed from the arguments (and constants) only' % u(v0)[:60],
+                         'the start vector %s is itself drawn from an unseeded generator (%s)' % (u(v0)[:60], u(src)[:60] if src is not None else ''))
+    return n
